@@ -9,6 +9,7 @@ from __future__ import annotations
 import numpy as np
 
 from .. import core, mj
+from ..mjutil import dense
 from . import _c43_gen as G
 from . import _c43_mjx as H
 
@@ -147,68 +148,90 @@ def compare_contacts(mt, C, X, i, iterative_ok):
     return problems, boundary
 
 
-def efc_features(J_, pos, margin, fl, D, aref):
-    return [np.concatenate([np.asarray(J_[k], float).reshape(-1), [pos[k], margin[k], fl[k], D[k], aref[k]]]) for k in range(len(pos))]
+def efc_features(J_, pos, margin, fl, D):
+    return [np.concatenate([np.asarray(J_[k], float).reshape(-1), [pos[k], margin[k], fl[k], D[k]]]) for k in range(len(pos))]
 
 
 def efc_tol(loose):
     rt, at = (RTOL_ITER, ATOL_ITER) if loose else (RTOL, ATOL)
 
     def fn(a, b):
-        nv = a.size - 5
+        nv = a.size - 4
         e = nerr(a[:nv], b[:nv], rt, at)
-        for k in range(nv, nv + 5):
+        for k in range(nv, nv + 4):
             e = max(e, nerr(a[k], b[k], rt, at))
         return e
     return fn
 
 
-def compare_state(J, item, mt, mw, xtype_static, C, X, i, part, stats):
-    """Compare one lattice state; returns list of (field, err, stage) divergences (root stage only) and sensor diffs."""
+K_SENSOR_ACC = "forward() returns before sensor_acc when the model has no constraint rows: acceleration-stage sensors stay 0"
+K_JDOTV = "connect/weld rows: efc_aref lacks the Jdot*v correction that the C engine's mj_referenceConstraint subtracts"
+K_FORCERANGE = "implicitfast: deriv_smooth_vel keeps the velocity derivative of an actuator whose force is clamped by forcerange (C skips it)"
+K_TENARM = "tendon armature over dofs that are not ancestor-related: C drops the cross terms of M (C06 finding), MJX keeps them"
+K_NOTOPT = "qacc is not the minimiser of the C engine's constraint problem although MJX's own solver reports a stationary point"
+
+
+def solve_dev(C, q, qfc):
+    """|M^-1 (M q - qfrc_smooth - qfc)|_inf: bound on the distance of q from the minimiser (cost Hessian >= M)."""
+    M = C["M"]
+    g = M @ q - C["qfrc_smooth"] - qfc
+    try:
+        return float(np.max(np.abs(np.linalg.solve(M, g)))) if q.size else 0.0
+    except np.linalg.LinAlgError:
+        return float("inf")
+
+
+def compare_state(J, item, mt, C, X, i, st, xtype_static, part, stats):
+    """-> dict stage -> list of (field, err, canonical key or None), or None when boundary-excluded."""
     nefc_c = C["nefc"]
     div = {}
     iterative = item.get("iterative", False)
+    info = {"skip_solve": False, "skip_next": False}
 
     def chk(field, a, b, rt=RTOL, at=ATOL):
         e = nerr(a, b, rt, at)
         stats[field] = max(stats.get(field, 0.0), e if np.isfinite(e) else 1e300)
         return e
 
-    loose_all = iterative
-    # ---- plain fields
+    def put(stage, field, e, key=None):
+        div.setdefault(stage, []).append((field, e, key))
+
+    # ---- plain fields of the smooth stages
     for stage, fields in STAGES:
+        if stage in ("solve", "next"):
+            continue
         for f in fields:
-            if f in ("contact", "efc", "efc_force"):
+            if f in ("contact", "efc"):
                 continue
             rt, at = RTOL, ATOL
-            if stage in ("solve", "next") and nefc_c:
-                rt, at = RTOL_SOLVE, ATOL_SOLVE
-            if loose_all and stage not in ("pos", "cam", "pos2"):
-                rt, at = max(rt, RTOL_ITER), max(at, ATOL_ITER)
-            if f == "next_time":
-                e = chk(f, X[f][i], C[f], rt, at)
-            else:
-                e = chk(f, X[f][i], C[f], rt, at)
+            if iterative and stage not in ("pos", "cam", "pos2"):
+                rt, at = RTOL_ITER, ATOL_ITER
+            e = chk(f, X[f][i], C[f], rt, at)
             if e > 1:
-                div.setdefault(stage, []).append((f, e))
+                key = None
+                if f == "M" and mt.ntendon and np.any(np.array(mt.tendon_armature) > 0):
+                    pat = dense(mt.M_rownnz, mt.M_rowadr, mt.M_colind, np.ones(mt.nC), mt.nv, mt.nv) > 0
+                    pat = pat | pat.T
+                    if nerr(np.asarray(X[f][i])[pat], C[f][pat], rt, at) <= 1:
+                        key = K_TENARM
+                put(stage, f, e, key)
     # ---- contacts
     cp, boundary = compare_contacts(mt, C, X, i, iterative)
     if boundary:
         part.add("boundary_excluded", boundary)
-        return None
+        return None, info
     for what, e, pair in cp:
-        div.setdefault("contact", []).append((what, e))
+        put("contact", what, e)
     # ---- efc rows (multiset per type); MJX rows with zero Jacobian are inactive
     xJ = X["efc_J"][i]
+    pairs, cact, xi = [], [], []
     if xJ.shape[0] != len(xtype_static):
-        div.setdefault("efc", []).append(("efc row count != efc_type", float("inf")))
+        put("efc", "efc row count != efc_type", float("inf"))
     else:
         act = np.any(xJ != 0, axis=1) if xJ.size else np.zeros(0, bool)
         xi = np.nonzero(act)[0]
-        xf = efc_features(xJ[xi], X["efc_pos"][i][xi], X["efc_margin"][i][xi], X["efc_frictionloss"][i][xi],
-                          X["efc_D"][i][xi], X["efc_aref"][i][xi])
-        cf = efc_features(C["efc_J"], C["efc_pos"], C["efc_margin"], C["efc_frictionloss"], C["efc_D"], C["efc_aref"])
-        # rows whose Jacobian is exactly zero on the C side carry no information either
+        xf = efc_features(xJ[xi], X["efc_pos"][i][xi], X["efc_margin"][i][xi], X["efc_frictionloss"][i][xi], X["efc_D"][i][xi])
+        cf = efc_features(C["efc_J"], C["efc_pos"], C["efc_margin"], C["efc_frictionloss"], C["efc_D"])
         cact = [k for k in range(nefc_c) if np.any(C["efc_J"][k] != 0)]
         pairs, uc, ux, worst = match_rows([int(C["efc_type"][k]) for k in cact], [cf[k] for k in cact],
                                           [int(xtype_static[k]) for k in xi], xf, efc_tol(iterative))
@@ -216,15 +239,70 @@ def compare_state(J, item, mt, mw, xtype_static, C, X, i, part, stats):
         if uc or ux:
             tc = sorted(set(int(C["efc_type"][cact[k]]) for k in uc))
             tx = sorted(set(int(xtype_static[xi[k]]) for k in ux))
-            div.setdefault("efc", []).append(("efc rows unmatched (C types %s: %d rows, MJX types %s: %d rows)" % (tc, len(uc), tx, len(ux)),
-                                              float("inf")))
-        elif nefc_c and "efc" not in div:
-            cfo = np.array([C["efc_force"][cact[a]] for a, b in pairs])
-            xfo = np.array([X["efc_force"][i][xi[b]] for a, b in pairs])
-            e = chk("efc_force", xfo, cfo, max(RTOL_SOLVE, RTOL_ITER if iterative else 0), max(ATOL_SOLVE, ATOL_ITER if iterative else 0))
+            put("efc", "efc rows (J,pos,margin,frictionloss,D) unmatched: C types %s, MJX types %s" % (tc, tx), float("inf"))
+        else:
+            # reference acceleration of matched rows
+            rt, at = (RTOL_ITER, ATOL_ITER) if iterative else (RTOL, ATOL)
+            moving = bool(np.any(np.asarray(st["qvel"]) != 0))
+            for a_, b_ in pairs:
+                k = cact[a_]
+                e = chk("efc_aref", X["efc_aref"][i][xi[b_]], C["efc_aref"][k], rt, at)
+                if e > 1:
+                    key = None
+                    if int(C["efc_type"][k]) == 0 and int(mt.eq_type[int(C["efc_id"][k])]) in (0, 1) and moving:
+                        key = K_JDOTV
+                    put("efc", "efc_aref (type %d)" % int(C["efc_type"][k]), e, key)
+    # ---- constraint solve: optimality certificates instead of trusting either iterative solver
+    qx, qc = np.asarray(X["qacc"][i], float), C["qacc"]
+    scale = max(np.max(np.abs(qx)) if qx.size else 0.0, np.max(np.abs(qc)) if qc.size else 0.0)
+    if nefc_c == 0:
+        for f in ("qfrc_constraint", "qacc"):
+            e = chk(f, X[f][i], C[f])
             if e > 1:
-                div.setdefault("solve", []).append(("efc_force", e))
-    return div
+                put("solve", f, e)
+    elif "efc" not in div and "qfc_at_x" in C:
+        rt, at = max(RTOL_SOLVE, RTOL_ITER if iterative else 0), max(ATOL_SOLVE, ATOL_ITER if iterative else 0)
+        thr = 0.1 * (at + rt * scale)
+        own_x = solve_dev(C, qx, np.asarray(X["qfrc_constraint"][i], float))
+        own_c = solve_dev(C, qc, C["qfrc_constraint"])
+        if not own_x <= thr:
+            part.add("mjx_solver_not_converged_skipped")
+            info["skip_solve"] = info["skip_next"] = True
+        else:
+            cert = solve_dev(C, qx, C["qfc_at_x"])
+            stats["solve_certificate"] = max(stats.get("solve_certificate", 0.0), cert / (10 * thr))
+            if not cert <= 10 * thr:
+                put("solve", "qacc optimality on the C problem (|M^-1 grad| = %.3g)" % cert, cert / (10 * thr), K_NOTOPT + " @ " + item["name"].split("#")[0])
+            if not own_c <= thr:
+                part.add("c_solver_not_converged_skipped")
+                info["skip_next"] = info["skip_solve"] = True
+            else:
+                for f in ("qfrc_constraint", "qacc"):
+                    e = chk(f, X[f][i], C[f], rt, at)
+                    if e > 1:
+                        put("solve", f, e)
+                cfo = np.array([C["efc_force"][cact[a_]] for a_, b_ in pairs])
+                xfo = np.array([X["efc_force"][i][xi[b_]] for a_, b_ in pairs])
+                e = chk("efc_force", xfo, cfo, rt, at)
+                if e > 1:
+                    put("solve", "efc_force", e)
+    else:
+        info["skip_solve"] = info["skip_next"] = True
+    # ---- next state
+    if not info["skip_next"]:
+        rt, at = (RTOL_SOLVE, ATOL_SOLVE) if nefc_c else (RTOL, ATOL)
+        if iterative:
+            rt, at = max(rt, RTOL_ITER), max(at, ATOL_ITER)
+        sat = False
+        if int(mt.opt.integrator) == 3 and mt.nu:   # mjINT_IMPLICITFAST
+            fr, lim, f_ = np.array(mt.actuator_forcerange), np.array(mt.actuator_forcelimited), C["actuator_force"]
+            veldep = (np.array(mt.actuator_gainprm)[:, 2] != 0) | (np.array(mt.actuator_biasprm)[:, 2] != 0)
+            sat = bool(np.any((lim != 0) & veldep & ((f_ <= fr[:, 0]) | (f_ >= fr[:, 1]))))
+        for f in ("next_qpos", "next_qvel", "next_act", "next_time"):
+            e = chk(f, X[f][i], C[f], rt, at)
+            if e > 1:
+                put("next", f, e, K_FORCERANGE if (sat and f in ("next_qpos", "next_qvel")) else None)
+    return div, info
 
 
 def sensor_diffs(J, mt, C, X, i, nefc_c, iterative, stats):
@@ -248,31 +326,15 @@ def sensor_diffs(J, mt, C, X, i, nefc_c, iterative, stats):
 ORDER = [s for s, _ in STAGES]
 
 
-def classify(item, mt, field, nefc_c, J=None, sensor=None):
-    """Canonical key per root cause.  Known root causes get a model-independent key; anything else is keyed by
-    (field, model family) so that it is reported separately."""
-    fam = item["name"].split("#")[0]
-    if sensor is not None:
-        sname = J.mujoco.mjtSensor(sensor[1]).name
-        if sensor[2] == 3 and nefc_c == 0 and mt_static_nefc(item) == 0:
-            return "forward() returns before sensor_acc when the model has no constraint rows: acceleration-stage sensors stay 0"
-        return "sensor %s differs @ %s" % (sname, fam)
-    return "%s differs @ %s" % (field, fam)
-
-
-def mt_static_nefc(item):
-    return item.get("_xnefc", -1)
-
-
 def check_model(J, lib, part, item, cap):
     mujoco, mjx, jax = J.mujoco, J.mjx, J.jax
     xml = item["xml"]
+    fam = item["name"].split("#")[0]
     mt = lib.load_xml(xml)
     try:
         mw = mujoco.MjModel.from_xml_string(xml)
-    except Exception as e:   # the binding's compiler rejects what the tree accepts: skew
+    except Exception:   # the binding's compiler rejects what the tree accepts: version skew
         part.add("skew_excluded")
-        part["extra"].setdefault("skew_fields", "")
         mt.free()
         return
     sk = H.skew(J, mw, mt)
@@ -288,12 +350,10 @@ def check_model(J, lib, part, item, cap):
         part.add("rejected_not_implemented")
         part.count(1, key=("rejected", item["name"]))
         if item.get("must_accept"):
-            part.violation("put_model rejects a model of the supported alphabet: %s" % item["name"].split("#")[0],
-                           "NotImplementedError: %s" % e, {"xml": xml})
+            part.violation("put_model rejects a model of the supported alphabet: %s" % fam, "NotImplementedError: %s" % e, {"xml": xml})
         mt.free()
         return
     xtype = np.asarray(dx0._impl.efc_type)
-    item["_xnefc"] = int(xtype.size)
     states = H.states_for(mt, item["kind"], cap)
     S = H.batch_states(J, states)
     f = jax.jit(jax.vmap(H.make_eval(J, mx, dx0)))
@@ -308,49 +368,43 @@ def check_model(J, lib, part, item, cap):
         mt.free()
         return
     d = lib.make_data(mt)
-    stats = {}
-    iterations = int(mt.opt.iterations)
+    stats = part.setdefault("stats", {})
     for i, st in enumerate(states):
-        C = H.c_forward_step(lib, mt, d, st)
+        C = H.c_forward_step(lib, mt, d, st, qacc_x=X["qacc"][i])
         nefc_c = C["nefc"]
         rp = {"model": item["name"], "xml": xml, "state_index": i,
               "state": {k: np.asarray(v).tolist() for k, v in st.items()}}
-        unconverged = nefc_c and (C["solver_niter"] >= iterations or C["step_niter"] >= iterations)
-        div = compare_state(J, item, mt, mw, xtype, C, X, i, part, stats)
+        div, info = compare_state(J, item, mt, C, X, i, st, xtype, part, stats)
         if div is None:
             continue   # boundary-excluded
         nontrivial = (item["name"], i) if (mt.nv >= 2 or nefc_c) else None
         part.count(1, key=nontrivial, sample={"model": item["name"], "state": i, "nefc": nefc_c, "ncon": int(C["contact"].size)}
                    if i == 1 else None)
-        if unconverged:
-            part.add("solver_not_converged_skipped")
-            for s in ("solve", "next"):
-                div.pop(s, None)
         first = None
-        for s in ORDER:
-            if s in div:
-                first = s
+        for s_ in ORDER:
+            if s_ in div:
+                first = s_
                 break
         if first is not None:
-            for fld, e in div[first]:
-                key = classify(item, mt, fld, nefc_c)
-                part.violation(key, "MJX %s != C engine (normalised err %.3g, tolerance 1) in model %s state %d [stage %s]"
+            for fld, e, key in div[first]:
+                part.violation(key or "%s differs @ %s" % (fld, fam),
+                               "MJX %s != C engine (normalised err %.3g, tolerance 1) in model %s state %d [stage %s]"
                                % (fld, e, item["name"], i, first), dict(rp, field=fld))
         lim = ORDER.index(first) if first is not None else len(ORDER)
-        for s, stype, stage, e in sensor_diffs(J, mt, C, X, i, nefc_c, item.get("iterative", False), stats):
-            if unconverged and stage == 3:
+        for s_, stype, stage, e in sensor_diffs(J, mt, C, X, i, nefc_c, item.get("iterative", False), stats):
+            if stage == 3 and nefc_c and (info["skip_solve"] or info["skip_next"]):
                 continue
             if ORDER.index(SENSOR_AFTER[stage]) >= lim:
                 continue
-            key = classify(item, mt, "sensordata", nefc_c, J=J, sensor=(s, stype, stage))
+            sname = mujoco.mjtSensor(stype).name
+            if stage == 3 and xtype.size == 0:
+                key = K_SENSOR_ACC
+            else:
+                key = "sensor %s differs @ %s" % (sname, fam)
+            a_, n_ = int(mt.sensor_adr[s_]), int(mt.sensor_dim[s_])
             part.violation(key, "MJX sensor %d (%s) != C engine (normalised err %.3g) in model %s state %d: mjx=%s c=%s"
-                           % (s, J.mujoco.mjtSensor(stype).name, e, item["name"], i,
-                              X["sensordata"][i][int(mt.sensor_adr[s]):int(mt.sensor_adr[s]) + int(mt.sensor_dim[s])],
-                              C["sensordata"][int(mt.sensor_adr[s]):int(mt.sensor_adr[s]) + int(mt.sensor_dim[s])]),
-                           dict(rp, sensor=s))
-    ps = part.setdefault("stats", {})
-    for k, v in stats.items():
-        ps[k] = max(ps.get(k, 0.0), v)
+                           % (s_, sname, e, item["name"], i, X["sensordata"][i][a_:a_ + n_], C["sensordata"][a_:a_ + n_]),
+                           dict(rp, sensor=s_))
     d.free()
     mt.free()
 
@@ -371,12 +425,14 @@ def _chunk(chunk):
 
 def alphabet(thorough):
     items = []
-    k = [0]
+    fam_count = {}
 
-    def opt(**kw):
-        o, desc = G.option_cover(k[0], **kw)
-        k[0] += 1
-        return o, desc
+    def opt(fam, **kw):
+        """family-wise walk through the 24-element option product with stride 5 (coprime), distinct offsets"""
+        n = fam_count.get(fam, 0)
+        fam_count[fam] = n + 1
+        off = {"smooth": 0, "constr": 7, "flags": 0, "contact": 3, "iter": 10}[fam]
+        return G.option_cover(5 * n + off, **kw)
 
     def add(it, desc):
         it["name"] = "%s#%s" % (it["name"], "/".join(desc))
@@ -388,28 +444,30 @@ def alphabet(thorough):
         trees += [((-1, 0, 1), ("free", "hinge", "ball")), ((-1, 0, 0), ("hinge", "slide", "hinge")),
                   ((-1, -1, 1), ("ball", "slidehinge", "hinge")), ((-1, 0, -1), ("slide", "ball", "free")),
                   ((-1, -1, -1), ("hinge", "free", "slide"))]
+    eqsets = [["connect", "joint"], ["joint", "tendon", "inactive"], ["weld", "inactive"], ["connect2", "weld_site", "tendon"],
+              ["connect_site", "weld2"]]
     for ti, (par, js) in enumerate(trees):
         tn = "%s:%s" % (",".join(map(str, par)), ",".join(js))
         # smooth family (no constraints): qacc and the next state are compared tightly
-        o, desc = opt()
+        o, desc = opt("smooth")
         add(G.tree_model("smooth[%s]" % tn, par, js, o, tendon=True, spatial=(ti % 3 == 0) and "plain", gravcomp=(ti % 2 == 0),
                          actuators=2 if (thorough or ti % 4 == 0) else 1, sensors=2 if (thorough or ti % 4 == 1) else 1,
                          camera=(ti % 5 == 2), mocap=(ti % 6 == 3), tendon_armature=(ti % 4 == 2)), desc)
         if thorough or ti % 2 == 0:
-            o, desc = opt()
-            eq = [["connect", "joint"], ["weld", "inactive"], ["connect2", "weld_site", "tendon"], ["connect_site", "weld2"]][ti % 4]
-            add(G.tree_model("constr[%s]" % tn, par, js, o, limits=True, friction=True, equality=eq, tendon="full",
-                             actuators=1, sensors=1), desc)
+            o, desc = opt("constr")
+            add(G.tree_model("constr[%s]" % tn, par, js, o, limits=True, friction=True, equality=eqsets[(ti // (1 if thorough else 2)) % 5],
+                             tendon="full", actuators=1, sensors=1), desc)
     # flags
-    flagsets = [dict(gravity="disable"), dict(spring="disable"), dict(damper="disable"), dict(eulerdamp="disable"),
-                dict(clampctrl="disable"), dict(actuation="disable"), dict(sensor="disable"), dict(refsafe="disable"),
+    flagsets = [dict(spring="disable"), dict(damper="disable"), dict(eulerdamp="disable"), dict(clampctrl="disable"),
+                dict(gravity="disable"), dict(actuation="disable"), dict(sensor="disable"), dict(refsafe="disable"),
                 dict(limit="disable", frictionloss="disable"), dict(equality="disable"), dict(constraint="disable"),
-                dict(spring="disable", damper="disable"), dict(warmstart="disable")]
-    for fi, fl in enumerate(flagsets if thorough else flagsets[:6]):
+                dict(spring="disable", damper="disable"), dict(warmstart="disable"), dict(contact="disable")]
+    for fi, fl in enumerate(flagsets if thorough else flagsets[:4]):
         par, js = [((-1, 0), ("hinge", "slide")), ((-1,), ("ball",)), ((-1, 0), ("free", "hinge"))][fi % 3]
-        o, desc = G.option_cover(fi * 3, flags=fl)   # Euler first: eulerdamp / damper interplay
+        o, desc = G.option_cover(fi * 3, flags=fl)   # always Euler: eulerdamp / damper interplay
+        constrained = fi >= 7
         it = G.tree_model("flags[%s]" % ",".join("%s" % a for a in fl), par, js, o, tendon=True, gravcomp=True,
-                          limits=(fi >= 8), friction=(fi >= 8), equality=["connect"] if fi >= 8 else None,
+                          limits=constrained, friction=constrained, equality=["joint", "connect"] if constrained else None,
                           actuators=1, sensors=1)
         add(it, desc + tuple("%s=%s" % kv for kv in fl.items()))
     # contact scenes: every primitive pair of MJX's table
@@ -418,22 +476,56 @@ def alphabet(thorough):
     body_pairs_iter = [("sphere", "box"), ("capsule", "box"), ("box", "box"), ("sphere", "ellipsoid"), ("sphere", "cylinder"),
                        ("capsule", "ellipsoid"), ("capsule", "cylinder"), ("ellipsoid", "ellipsoid"), ("ellipsoid", "cylinder"),
                        ("cylinder", "cylinder")]
-    ci = 0
-    for condim in ((1, 3, 4, 6) if thorough else (3, 6)):
-        for pairs, nm in ((plane_pairs[:3], "plane-analytic"), (body_pairs_exact, "body-analytic")):
-            o, desc = G.option_cover(ci)
-            ci += 1
-            add(G.contact_model("contact[%s,condim%d]" % (nm, condim), o, pairs, condim=condim,
-                                margin=0.01 if condim in (3, 4) else 0.0, gap=0.002 if condim == 4 else 0.0,
-                                priority=(condim == 6), explicit_pair=(condim >= 4 and nm == "body-analytic")), desc)
-    o, desc = G.option_cover(ci)
-    ci += 1
+    scenes = [(3, plane_pairs[:3], "plane-analytic"), (3, body_pairs_exact, "body-analytic"),
+              (6, plane_pairs[:3], "plane-analytic"), (4, body_pairs_exact, "body-analytic")]
+    if thorough:
+        scenes += [(1, plane_pairs[:3], "plane-analytic"), (1, body_pairs_exact, "body-analytic"),
+                   (4, plane_pairs[:3], "plane-analytic"), (6, body_pairs_exact, "body-analytic"),
+                   (3, plane_pairs[:3] + body_pairs_exact, "mixed")]
+    for condim, pairs, nm in scenes:
+        o, desc = opt("contact")
+        add(G.contact_model("contact[%s,condim%d]" % (nm, condim), o, pairs, condim=condim,
+                            margin=0.01 if condim in (3, 4) else 0.0, gap=0.002 if condim == 4 else 0.0,
+                            priority=(condim == 6), explicit_pair=(condim >= 4 and nm == "body-analytic")), desc)
+    # richer contact parameter mixing / impratio (analytic pairs)
+    if thorough:
+        o, desc = opt("contact", impratio="2.5")
+        add(G.contact_model("contact[mix,impratio]", o, plane_pairs[:2] + body_pairs_exact[:2], condim=3, margin=0.004,
+                            floor_attr='solmix="2.5" solref="0.015 0.8" solimp="0.8 0.9 0.002 0.3 3"'), desc + ("impratio2.5",))
+        o, desc = opt("contact", impratio="0.6")
+        add(G.contact_model("contact[direct-solref,impratio]", o, plane_pairs[:3], condim=4, solref="-900 -40",
+                            floor_attr='solimp="0.85 0.9 0.002 0.5 2"'), desc + ("impratio0.6",))
+        o, desc = opt("contact")
+        add(G.contact_model("contact[mu0]", o, plane_pairs[:2], condim=3, friction="0 0 0", floor_attr=""), desc)
+        o, desc = opt("contact")
+        add(G.contact_model("contact[exclude]", o, body_pairs_exact[:2] + plane_pairs[:1], condim=3, exclude=True), desc)
+    # feature gate: MJCF features newer than / outside MJX-JAX; put_model must either reject them or reproduce C
+    gate = [("actearly", dict(post=[('dyntype="filter" dynprm="0.1"', 'dyntype="filter" dynprm="0.1" actearly="true"')])),
+            ("noslip", dict(extra_opt='noslip_iterations="3"', contact=True)),
+            ("actfrcrange+actgravcomp", dict(actfrc=True, gravcomp=True)),
+            ("fluid-inertiabox", dict(extra_opt='density="1.2" viscosity="0.0002" wind="0.5 -0.3 0.1"')),
+            ("fluid-ellipsoid", dict(extra_opt='density="1.2" viscosity="0.0002"',
+                                     post=[('name="g0"', 'name="g0" fluidshape="ellipsoid"')])),
+            ("pulley", dict(spatial="pulley")),
+            ("surfacevel", dict(contact=True, geom_attr='surfacevel="0.3 0 0 0 0 0"')),
+            ("act-delay", dict(post=[('name="a_motor"', 'name="a_motor" nsample="3" delay="0.012"')]))]
+    for gi, (gname, kw) in enumerate(gate if thorough else gate[:2]):
+        eo = kw.pop("extra_opt", "")
+        integ = ["Euler", "implicitfast", "RK4"][gi % 3] if "fluid" not in gname else "Euler"
+        o = G.option(integrator=integ, solver="Newton", cone=["pyramidal", "elliptic"][gi % 2], extra=eo)
+        desc = (integ, "Newton", ["pyramidal", "elliptic"][gi % 2], "auto")
+        if kw.pop("contact", False):
+            it = G.contact_model("gate[%s]" % gname, o, plane_pairs[:2] + body_pairs_exact[:1], condim=3, **kw)
+        else:
+            it = G.tree_model("gate[%s]" % gname, (-1, 0), ("hinge", "slide") if gi % 2 else ("free", "hinge"), o, tendon=True,
+                              actuators=1, sensors=1, **kw)
+        add(it, desc)
+    o, desc = opt("iter")
     it = G.contact_model("contact[plane-iter]", o, plane_pairs[3:], condim=3)
     it["iterative"] = True
     add(it, desc)
-    for bp in (body_pairs_iter if thorough else body_pairs_iter[:3]):
-        o, desc = G.option_cover(ci)
-        ci += 1
+    for bp in (body_pairs_iter if thorough else body_pairs_iter[:1]):
+        o, desc = opt("iter")
         it = G.contact_model("contact[%s-%s]" % bp, o, [bp], condim=3)
         it["iterative"] = True
         add(it, desc)
@@ -462,6 +554,8 @@ def run(ctx):
     mg = _Merger(ctx)
     core.pmap(mg, _chunk, [(it, cap) for it in items], nchunks=len(items))
     ctx.extra["max_err_over_tol"] = {k: float("%.3g" % v) for k, v in sorted(mg.stats.items())}
+    ctx.extra["violation_keys"] = sorted(k for k, _, _ in ctx.violations)
+    ctx.extra["known_finding_keys"] = sorted(k for k, _ in ctx.known_hits)
     ctx.extra["models"] = len(items)
     ctx.rule = ("models: %d = {smooth, constrained} bundles over %s kinematic forests x joint menu, flag lattice, contact scenes "
                 "for every primitive pair; options rotate over integrator{Euler,RK4,implicitfast} x solver{Newton,CG} x "
